@@ -130,7 +130,7 @@ func (p *P) tokenizerRun(r *core.Result, src *tape.Source, ctl *pool.Ctl, trace 
 	calls, reused := 0, false
 	kinds := ""
 	check := func(after string, ambiguous bool) {
-		rot := src.Intn(len(probe.Inputs), "c08.rot")
+		rot := src.Intn(probe.Rotations(), "c08.rot")
 		used := probe.TokBattery(t, rot)
 		fresh := probe.TokBattery(probe.FreshTokenizer(cfg), rot)
 		name, part, diff := probe.Compare(used, fresh)
@@ -327,7 +327,7 @@ func (p *P) parserRun(r *core.Result, src *tape.Source, ctl *pool.Ctl, trace boo
 	calls, reused := 0, false
 	kinds := ""
 	check := func(after string, ambiguous bool) {
-		rot := src.Intn(len(probe.Inputs), "c08.rot")
+		rot := src.Intn(probe.Rotations(), "c08.rot")
 		used := probe.ParBattery(ps, rot)
 		fresh := probe.ParBattery(probe.FreshParser(cfg), rot)
 		name, part, diff := probe.Compare(used, fresh)
